@@ -45,6 +45,9 @@ class _Cur:
     world = None
 
 
+_MONO_SKEW = 1.7e9 - 5000.0     # monotonic() starts near 5000 s when the wall clock is at the simulated epoch
+
+
 class _TimeShim:
     """Replaces the `time` module object inside pymemcache modules."""
 
@@ -52,7 +55,10 @@ class _TimeShim:
     def time():
         return _Cur.world.clock.now
 
-    monotonic = time
+    @staticmethod
+    def monotonic():
+        # a clock with an origin of its own: code that subtracts one clock from the other must be seen to
+        return _Cur.world.clock.now - _MONO_SKEW
 
     @staticmethod
     def sleep(dt):
@@ -63,8 +69,11 @@ class _TimeShim:
     def time_ns():
         return int(_Cur.world.clock.now * 1e9)
 
-    monotonic_ns = time_ns
-    perf_counter = time
+    @staticmethod
+    def monotonic_ns():
+        return int((_Cur.world.clock.now - _MONO_SKEW) * 1e9)
+
+    perf_counter = monotonic
 
     def __getattr__(self, name):          # anything else (strftime, struct_time, ...) is clock-free
         return getattr(_real_time, name)
